@@ -28,6 +28,7 @@ import (
 	"runtime/metrics"
 	"strings"
 	"sync"
+	"syscall"
 	"testing"
 	"time"
 
@@ -461,30 +462,74 @@ func c37Allocs() uint64 {
 // of real time.
 func c37Drive(reader string, data []byte, seed uint64, plain bool, faultAt int) *c37Out {
 	ch := make(chan *c37Out, 1)
-	al0 := c37Allocs()
 	go func() { ch <- c37DriveInner(reader, data, seed, plain, faultAt) }()
-	for waited := 0; ; waited += 8 {
-		select {
-		case o := <-ch:
-			if o.allocMiB >= 64 {
-				debug.FreeOSMemory() // a reader may have allocated gigabytes for a length field; give it back now
+	var o *c37Out
+	finished := func() bool {
+		if o == nil {
+			select {
+			case o = <-ch:
+			default:
 			}
-			return o
-		case <-time.After(8 * time.Second):
 		}
-		if al := c37Allocs(); al-al0 >= 256<<20 && waited < 600 {
-			al0 = al // still allocating by the hundred megabytes: slow, not stuck
-			continue
-		}
-		if c37InAllocator() && waited < 600 {
-			continue // inside one huge allocation (the counter only moves when it is done)
-		}
-		break
+		return o != nil
 	}
-	{
-		return &c37Out{reader: reader, end: "hang", hung: true, class: "reader-call-never-returned:" + reader,
-			detail: fmt.Sprintf("constructing the reader and driving it over a %d-byte stream had not finished after 8 s of real time", len(data)) + c37DebugStacks()}
+	select {
+	case o = <-ch:
+	case <-time.After(8 * time.Second):
+		// the calls have their own watchdog (3 s each); what is left for this one is a constructor
+		// that never returns
+		if c37ConfirmHang(finished, func() int64 { return 0 }) {
+			return &c37Out{reader: reader, end: "hang", hung: true, class: "reader-call-never-returned:" + reader,
+				detail: fmt.Sprintf("constructing the reader and driving it over a %d-byte stream had not finished after 8 s of real time and made no progress during 5 further seconds in which the process was running", len(data)) + c37DebugStacks()}
+		}
 	}
+	if o.allocMiB >= 64 {
+		debug.FreeOSMemory() // a reader may have allocated gigabytes for a length field; give it back now
+	}
+	return o
+}
+
+// c37ConfirmHang decides whether a call that has been out for seconds is spinning or merely slow.
+// Real time alone cannot tell: a reader that takes a corrupt length field at face value asks for
+// up to 4 GiB, sixteen workers doing that at once stall each other in the kernel for seconds, and
+// with one P the watchdog itself only runs when the stalled goroutine is taken off it. So the
+// verdict needs twenty quarter-second rounds (not necessarily consecutive in wall time, but with
+// no progress in between) in each of which the process really consumed CPU while nothing
+// observable moved: the call has not returned, the source was not read, no allocation of
+// megabytes completed, and the goroutine is not inside the allocator or the collector. Rounds in
+// which the process hardly ran say nothing and are not counted. Progress resets the count.
+func c37ConfirmHang(finished func() bool, progress func() int64) bool {
+	spins := 0
+	lastP, lastA, lastCPU := progress(), c37Allocs(), c37CPU()
+	for start := time.Now(); time.Since(start) < 20*time.Minute; {
+		time.Sleep(250 * time.Millisecond)
+		if finished() {
+			return false
+		}
+		pr, al, cpu := progress(), c37Allocs(), c37CPU()
+		switch {
+		case pr != lastP || al-lastA >= 64<<20 || c37InAllocator():
+			spins = 0
+		case cpu-lastCPU < 125*time.Millisecond:
+			// starved or stalled: no evidence either way
+		default:
+			spins++
+		}
+		lastP, lastA, lastCPU = pr, al, cpu
+		if spins >= 20 {
+			return !finished()
+		}
+	}
+	return !finished()
+}
+
+// c37CPU is the CPU time (user+system) this process has consumed.
+func c37CPU() time.Duration {
+	var ru syscall.Rusage
+	if err := syscall.Getrusage(syscall.RUSAGE_SELF, &ru); err != nil {
+		return 0
+	}
+	return time.Duration(ru.Utime.Nano() + ru.Stime.Nano())
 }
 
 func c37DriveInner(reader string, data []byte, seed uint64, plain bool, faultAt int) (o *c37Out) {
@@ -547,20 +592,22 @@ func c37DriveInner(reader string, data []byte, seed uint64, plain bool, faultAt 
 				g, e := next0()
 				ch <- ret{got: g, err: e, done: true}
 			}()
-			al0 := c37Allocs()
 			var r ret
+			finished := func() bool {
+				if !r.done {
+					select {
+					case r = <-ch:
+					default:
+					}
+				}
+				return r.done
+			}
 			select {
 			case r = <-ch:
 			case <-time.After(3 * time.Second):
-				if c37Allocs()-al0 < 256<<20 && !c37InAllocator() {
-					break
-				}
-				// not spinning: busy with an allocation of hundreds of megabytes (a length field of
-				// a corrupt header taken at face value), which is slow, not endless
-				select {
-				case r = <-ch:
-				case <-time.After(180 * time.Second):
-				}
+				// slow (an allocation of gigabytes for a length field of a corrupt header taken at
+				// face value, a stalled machine) or endless?
+				c37ConfirmHang(finished, func() int64 { return int64(sim.calls) })
 			}
 			switch {
 			case r.pan != nil:
@@ -569,7 +616,7 @@ func c37DriveInner(reader string, data []byte, seed uint64, plain bool, faultAt 
 				return r.got, r.err
 			default:
 				o.class = "reader-call-never-returned:" + reader
-				o.detail = fmt.Sprintf("a call had not returned after 3 s of real time on a %d-byte stream; the source had been asked %d times by then (position %d)", len(data), sim.calls, sim.pos)
+				o.detail = fmt.Sprintf("a call had not returned after 3 s of real time on a %d-byte stream and made no progress during 5 further seconds in which the process was running; the source had been asked %d times by then (position %d)", len(data), sim.calls, sim.pos) + c37DebugStacks()
 				o.end = "hang"
 				o.hung = true
 				return false, nil
@@ -1030,14 +1077,22 @@ func c37DebugStacks() string {
 	if os.Getenv("VERIF_C37_DEBUG") == "" {
 		return ""
 	}
-	buf := make([]byte, 4<<20)
-	debug.SetTraceback("system")
-	n := runtime.Stack(buf, true)
-	debug.SetTraceback("single")
 	out := ""
-	for _, g := range strings.Split(string(buf[:n]), "\n\n") {
-		if strings.Contains(g, "c37DriveInner") {
-			out += "\n" + g
+	recs := make([]runtime.StackRecord, 1024)
+	n, ok := runtime.GoroutineProfile(recs)
+	out += fmt.Sprintf("\nprofile n=%d ok=%v allocs=%d", n, ok, c37Allocs())
+	if ok {
+		for _, r := range recs[:n] {
+			fr := runtime.CallersFrames(r.Stack())
+			names := []string{}
+			for {
+				f, more := fr.Next()
+				names = append(names, fmt.Sprintf("%s:%d", f.Function, f.Line))
+				if !more {
+					break
+				}
+			}
+			out += "\n  G " + strings.Join(names, " < ")
 		}
 	}
 	ents, _ := os.ReadDir("/proc/self/task")
